@@ -534,3 +534,21 @@ Theorem hold_and_wait_wedges_the_connection_pool : forall cap q, (1 <= cap)%nat 
   (forall ts', ~ ReadConn.kstep cap ts ts') /\ forallb ReadConnProofs.kdone ts = false /\ ReadConn.kheld ts = cap.
 Proof. exact ReadConnProofs.hold_and_wait_wedges_the_pool. Qed.
 Print Assumptions hold_and_wait_wedges_the_connection_pool.
+
+(* ---- round 7: stored label documents on the series endpoints. storedLabels runs in the row-streaming goroutine of
+   QueryLabelsService.Series, which has no recover (allow-listed above with its operations): its fallback decoder (the path
+   of every row encoding/json refuses) is modelled with Go's panicking operations explicit (model/ReadLabelDoc.v: s[i], s[n:]).
+   For EVERY stored text and every strconv.QuotedPrefix that returns a prefix of its argument, the decoder as it is on main
+   ends in Malformed or Decoded. *)
+From Qryn Require model.ReadLabelDoc proofs.ReadLabelDocProofs.
+Theorem stored_label_documents_cannot_crash_the_reader : forall qp, ReadLabelDocProofs.returns_a_prefix qp ->
+  forall doc, ReadLabelDoc.stored_labels_fallback qp ReadLabelDoc.VMain doc <> ReadLabelDoc.Panic.
+Proof. exact ReadLabelDocProofs.stored_labels_never_panics. Qed.
+Print Assumptions stored_label_documents_cannot_crash_the_reader.
+
+(* ... and the length test matters: the variant of seeded change C12-g (rest[0] compared with ':' after a label name, no
+   look at len(rest)) panics on a document cut right after a quoted name, where main answers Malformed; with the length
+   test the stricter check is harmless (guarded_check_never_panics in the proofs file). *)
+Theorem label_name_check_without_length_test_panics : ReadLabelDocProofs.seeded_variant_panics_main_does_not.
+Proof. exact ReadLabelDocProofs.unguarded_index_panics. Qed.
+Print Assumptions label_name_check_without_length_test_panics.
